@@ -245,9 +245,10 @@ Definition spec_xproc (ordered : bool) (io : item_obs) (o : obs) : bool :=
 (* ---- bounds that hold for EVERY history, also when a class was re-declared after its instances
    were: what the unpickled declaration / object provides (flattened)
      - includes everything the original provides at round-trip time, and
-     - is made of names only: the interfaces some directlyProvides / alsoProvides call named for
-       this very instance (and what those extend), plus what its class implements NOW -- never a
-       snapshot of what the class implemented earlier ("stores only names, never the definition").
+     - beyond that is made of names only: the interfaces some directlyProvides / alsoProvides call
+       named for this very instance (and what those extend), plus what its class implements NOW --
+       never a snapshot of what the class implemented earlier that the original does not provide
+       either ("stores only names, never the definition").
    Computed from the history text and the observed flattened() of the class specification. *)
 Definition subset (a b : list nat) : bool := forallb (fun x => mem_nat x b) a.
 
@@ -274,7 +275,11 @@ Definition bounds_ok (w : world) (ops : list op) (items : list item_obs) (io : i
          upwards, the specification of a class (with what that class implements now) *)
       let named a := if Nat.ltb a (nifaces w) then iface_anc (fuel_of w) w a
                      else class_flattened items (a - nifaces w) in
+      (* ... or something the ORIGINAL provides at round-trip time (e.g. the interfaces alsoProvides
+         copied out of a class specification that had been passed as an argument earlier: they are
+         the instance's own declared interfaces from then on, for the original and the copy alike) *)
       let allowed := 9 :: match w_root w with Some r => [r] | None => [] end
+                       ++ io_fbefore io
                        ++ flat_map named (named_for i ops)
                        ++ class_flattened items (fst (nth i (w_insts w) (0, []))) in
       negb (ob_ok o) || (subset (io_fbefore io) (ob_fafter o) && subset (ob_fafter o) allowed)
